@@ -365,6 +365,18 @@ class NucleationSiteParameters:
         self._dislocationN0 = None
 
     @property
+    def VmAlpha(self):
+        return self._VmAlpha
+    
+    @VmAlpha.setter
+    def VmAlpha(self, value):
+        #Site densities along dislocations, grain boundaries and edges depend on the molar volume
+        self._VmAlpha = value
+        self._GBareaN0 = None
+        self._GBedgeN0 = None
+        self._dislocationN0 = None
+
+    @property
     def grainSize(self):
         return self._grainSize
     
